@@ -37,6 +37,7 @@ from .engine import Inconclusive
 from . import extract as ex
 from . import panic as PN
 from . import optnorm
+from . import pathsum
 
 FROM_STR = "serde_json::from_str"
 PRINT = "std::io::_print"
@@ -73,6 +74,9 @@ def peel(e):
     """strip_payload + anyhow's context()/with_context() (payload-transparent) + unwrap_or_else(never-returning handler)."""
     while True:
         e2 = strip_payload(e)
+        if e2[0] == "payload" and len(e2) > 2:      # case normal form (rules/optnorm.py): the success payload of a source that is no combinator
+            e = e2[2]
+            continue
         if e2[0] == "call" and e2[1] and e2[1]["path"] == "std::result::Result::<T, E>::unwrap_or_else" and e2[3] in _HANDLED:
             e = e2[2][0]
             continue
@@ -115,12 +119,8 @@ def run(ctx):
             sw = None
             for sb in m.reachable():
                 tt = m.blocks[sb]["term"]
-                if tt["k"] == "SwitchInt":
-                    e = m.trace(tt["discr"])
-                    if e[0] == "discr":
-                        x = strip_refs(e[1])
-                        if x[0] == "call" and x[3] == bi:
-                            sw = sb
+                if tt["k"] == "SwitchInt" and bi in discr_sites(m.trace(tt["discr"])):
+                    sw = sb
             branches.append((bi, what, sw))
     # fallible steps handled by a handler that never returns (unwrap_or_else(|e| { …; exit(n) })): the call returns only on success
     handled, droppers, exits = failure_handlers(facts, bodies)
@@ -168,8 +168,8 @@ def run(ctx):
                 ctx.check(good, "K4.fail-propagates", "failure of %s returns the error (`?`)" % short(what),
                           "on failure of %s main's result is %s instead of the propagated error" % (short(what), show_expr(r)), where=m.where(bi), fn=m.key, nontrivial=True)
             continue
-        cont = switch_edges_for_variant(m, sw, "Continue")
-        brk = switch_edges_for_variant(m, sw, "Break")
+        cont = variant_edges(m, sw, "Continue")
+        brk = variant_edges(m, sw, "Break")
         ctx.need(cont and brk, "`?` switch without Continue/Break edges")
         can_precede = pbi in m.reachable(bi)
         if can_precede:
@@ -182,11 +182,14 @@ def run(ctx):
         fail_blocks = m.reachable(brk[0])
         ctx.check(pbi not in fail_blocks, "K4.fail-no-print", "failure of %s (bb%d) prints no result line" % (short(what), bi),
                   "after %s fails the result line can still be printed" % short(what), where=m.where(bi), fn=m.key, nontrivial=True)
-        with m.restricted(fail_blocks - m.reachable(cont[0])):
-            r = m.trace(0)
-        good = r[0] == "call" and r[1] and "from_residual" in r[1]["path"]
-        ctx.check(good, "K4.fail-propagates", "failure of %s returns the error (`?`)" % short(what),
-                  "on failure of %s main's result is %s instead of the propagated error" % (short(what), show_expr(r)), where=m.where(bi), fn=m.key, nontrivial=True)
+        # what main returns on every way from the failure edge to its return (path summaries: the blocks of the ways
+        # out may be shared with later failures, and — in a helper-inlined view — with the helper's own exits)
+        verdict, r = failure_result(m, brk[0])
+        if verdict is None:
+            ctx.unread("K4.fail-propagates", "failure of %s" % short(what), "what main returns after %s fails could not be read: %s" % (short(what), r), where=m.where(bi), fn=m.key)
+        else:
+            ctx.check(verdict, "K4.fail-propagates", "failure of %s returns the error (`?`)" % short(what),
+                      "on failure of %s main's result is %s instead of the propagated error" % (short(what), show_expr(r)[:200] if r is not None else "never returned"), where=m.where(bi), fn=m.key, nontrivial=True)
     # after the print: straight to Ok(())
     with m.restricted(reach_from_print):
         r = m.trace(0)
@@ -196,96 +199,6 @@ def run(ctx):
     ctx.check(no_exit_after, "K1.then-ok", "after printing, main does not exit with a failure status", "main can exit non-zero after printing the result", where=m.where(pbi), fn=m.key)
 
     def k2_k3():
-        # ---------------- K2
-        a = strip_refs(m.trace(pterm["args"][0]))
-        ok = a[0] == "call" and a[1] and a[1]["path"].startswith("std::fmt::Arguments::<'a>::new")
-        ctx.need(ok, "print argument is not a format_args! value: %s" % show_expr(a))
-        tmpl = strip_refs(a[2][0])
-        pieces = decode_fmt(tmpl[1]["bytes"]) if tmpl[0] == "const" and "bytes" in tmpl[1] else None
-        ctx.need(pieces is not None, "format template could not be decoded")
-        ctx.check(pieces == [("arg",), ("lit", "\n")], "K2.template", "printed line is exactly `{}` + newline",
-                  "the print template is %r: the output is no longer exactly one line holding only the result" % (pieces,), where=m.where(pbi), fn=m.key, nontrivial=True, sample={"template": pieces})
-        arr = strip_refs(a[2][1])
-        elems = arr[2] if arr[0] == "agg" and arr[1].get("agg") == "Array" else None
-        ctx.need(elems is not None and len(elems) >= 1, "format arguments array not found")
-        e0 = strip_refs(elems[0])
-        disp = e0[0] == "call" and e0[1] and e0[1]["path"].endswith("new_display")
-        ctx.check(len(elems) == 1 and disp, "K2.display", "one argument, formatted with Display", "format arguments: %s" % [show_expr(x) for x in elems], where=m.where(pbi), fn=m.key)
-        if not disp:
-            return
-        x = strip_refs(e0[2][0])
-        via = []
-        if x[0] == "call" and x[1] and x[1]["path"] in ("<serde_json::Value as std::string::ToString>::to_string", "<T as std::string::ToString>::to_string") and "serde_json::Value" in (x[1].get("full") or ""):
-            via.append("Value::to_string")
-            x = strip_refs(x[2][0])
-        src = peel(x)
-        is_apply = src[0] == "call" and src[1] and src[1]["crate"] == "jsonlogic_rs" and src[1]["path"] == "jsonlogic_rs::apply"
-        ctx.check(bool(via or is_apply) and is_apply, "K2.prints-result", "the printed value is the library's serialisation of apply's Ok payload",
-                  "the printed text derives from %s — not (only) from the JSON serialisation of apply's result" % show_expr(x), where=m.where(pbi), fn=m.key, nontrivial=True,
-                  sample={"chain": via + ["payload of apply(..)?"]})
-        if not is_apply:
-            return
-        apply_bi = src[3]
-        # apply's arguments
-        def parsed_from(e):
-            s = peel(e)
-            if s[0] == "call" and s[1] and s[1]["path"] == FROM_STR and "serde_json::Value" in (s[1].get("full") or ""):
-                return s
-            return None
-
-        r0, d0 = parsed_from(src[2][0]), parsed_from(src[2][1])
-        ctx.check(r0 is not None and d0 is not None, "K2.parsed-by-from_str", "rule and data are parsed with serde_json::from_str::<Value> (whole text, trailing characters rejected)",
-                  "apply's arguments are %s and %s" % (show_expr(peel(src[2][0])), show_expr(peel(src[2][1]))), where=m.where(apply_bi), fn=m.key, nontrivial=True)
-        if r0 is None or d0 is None:
-            return
-        rule_text = peel(r0[2][0])
-        is_logic = rule_text[0] == "call" and rule_text[1] and rule_text[1]["path"].endswith("::value_of")
-        argname = None
-        if is_logic:
-            n = strip_refs(rule_text[2][1])
-            argname = const_value(n[1]) if n[0] == "const" else None
-        ctx.check(is_logic and argname is not None, "K2.rule-source", "the rule text is a command-line argument (%r)" % argname, "rule text derives from %s" % show_expr(rule_text), where=m.where(apply_bi), fn=m.key)
-
-        # ---------------- K3 data source
-        # Stated on sources and cut sets of the control-flow graph, not on the shape of the selection:
-        #   * every definition the data text can come from is either the data argument itself (made into a String) or a
-        #     buffer filled by reading stdin to the end;
-        #   * every path to the stdin read takes an edge that says "the data argument is absent" or "… equals \"-\"";
-        #   * every path to the use of the argument takes the edge that says "… does not equal \"-\"";
-        #   * a default substituted for an absent argument is the constant "-" (so that absence ends on the stdin side).
-        dt = strip_refs(d0[2][0])
-        while dt[0] == "call" and dt[1] and dt[1]["path"] in ("<std::string::String as std::ops::Deref>::deref", "std::string::String::as_str"):
-            dt = strip_refs(dt[2][0])
-
-        def arg_source(e, depth=0):
-            """(argument name, default constant or None) when e is the command-line argument's text."""
-            e = strip_refs(e)
-            if depth > 8:
-                return None
-            if e[0] == "field" and e[1][0] == "downcast" and e[1][2] == "Some":
-                return arg_source(e[1][1], depth + 1)
-            if e[0] == "agg" and e[1].get("variant") == "Some" and e[2]:
-                return arg_source(e[2][0], depth + 1)
-            if e[0] == "call" and e[1]:
-                pth = e[1]["path"]
-                if pth.endswith("::value_of"):
-                    n = strip_refs(e[2][1])
-                    return (const_value(n[1]), None) if n[0] == "const" else None
-                if pth == "std::option::Option::<T>::unwrap_or":
-                    inner = arg_source(e[2][0], depth + 1)
-                    dv = strip_refs(e[2][1])
-                    if inner and dv[0] == "const":
-                        return (inner[0], const_value(dv[1]))
-                    return (inner[0], "<computed>") if inner else None
-                if pth in ("std::option::Option::<T>::unwrap_or_default", "std::option::Option::<T>::unwrap_or_else"):
-                    inner = arg_source(e[2][0], depth + 1)
-                    return (inner[0], "<computed>") if inner else None
-                if pth in ("std::option::Option::<T>::unwrap", "std::option::Option::<T>::expect", "std::option::Option::<&T>::copied", "std::option::Option::<&T>::cloned"):
-                    return arg_source(e[2][0], depth + 1)
-            return None
-
-        OWNED = re.compile(r"::to_string$|::to_owned$|From<&str>|::into$|String::from$")
-
         def in_main(e):
             """The call expression e is a call site of main itself (not one inside a closure read through its summary)."""
             if not (e[0] == "call" and e[1] and isinstance(e[3], int) and 0 <= e[3] < len(m.blocks)):
@@ -325,6 +238,125 @@ def run(ctx):
             else:
                 out.append((e, e[3] if in_main(e) else site))
             return out
+        # ---------------- K2
+        a = strip_refs(m.trace(pterm["args"][0]))
+        ok = a[0] == "call" and a[1] and a[1]["path"].startswith("std::fmt::Arguments::<'a>::new")
+        ctx.need(ok, "print argument is not a format_args! value: %s" % show_expr(a))
+        tmpl = strip_refs(a[2][0])
+        pieces = decode_fmt(tmpl[1]["bytes"]) if tmpl[0] == "const" and "bytes" in tmpl[1] else None
+        ctx.need(pieces is not None, "format template could not be decoded")
+        ctx.check(pieces == [("arg",), ("lit", "\n")], "K2.template", "printed line is exactly `{}` + newline",
+                  "the print template is %r: the output is no longer exactly one line holding only the result" % (pieces,), where=m.where(pbi), fn=m.key, nontrivial=True, sample={"template": pieces})
+        arr = strip_refs(a[2][1])
+        elems = arr[2] if arr[0] == "agg" and arr[1].get("agg") == "Array" else None
+        ctx.need(elems is not None and len(elems) >= 1, "format arguments array not found")
+        e0 = strip_refs(elems[0])
+        disp = e0[0] == "call" and e0[1] and e0[1]["path"].endswith("new_display")
+        ctx.check(len(elems) == 1 and disp, "K2.display", "one argument, formatted with Display", "format arguments: %s" % [show_expr(x) for x in elems], where=m.where(pbi), fn=m.key)
+        if not disp:
+            return
+        x = strip_refs(e0[2][0])
+        # the values the printed text can be — read through `?`, merges of paths and Result combinators in case normal form
+        # (`apply(..).context(..).map(|r| r.to_string())` is `apply(..).context(..)?.to_string()`); error values leave by `?`
+        texts = [lf for lf, _pos in leaves(x) if not _residual(lf)]
+        if any(lf[0] == "unread" for lf in texts):
+            ctx.unread("K2.prints-result", "the printed value", "the printed text is produced by a form the source reader cannot read: %s" % show_expr([lf for lf in texts if lf[0] == "unread"][0][1])[:160], where=m.where(pbi), fn=m.key)
+            return
+        if len(texts) == 1:
+            x = strip_refs(texts[0])
+        via = []
+        if x[0] == "call" and x[1] and x[1]["path"] in ("<serde_json::Value as std::string::ToString>::to_string", "<T as std::string::ToString>::to_string") and "serde_json::Value" in (x[1].get("full") or ""):
+            via.append("Value::to_string")
+            x = strip_refs(x[2][0])
+        src = peel(x)
+        is_apply = src[0] == "call" and src[1] and src[1]["crate"] == "jsonlogic_rs" and src[1]["path"] == "jsonlogic_rs::apply"
+        K3_ALL = ("K3.data-source", "K3.reads-stdin", "K3.data-argument", "K3.default-dash", "K3.selector", "K3.stdin-only-on-dash", "K3.argument-verbatim")
+
+        def by_helper(e):
+            """e is the result of a function of the binary that this view of the program does not show inlined: not read here."""
+            return e[0] == "call" and bool(e[1]) and bool(e[1].get("local")) and facts.body(e[1].get("key")) is not None
+
+        def k3_unread(why, bi_):
+            for cl in K3_ALL:
+                ctx.unread(cl, "the data text", why, where=m.where(bi_), fn=m.key)
+        if not is_apply and by_helper(src):
+            ctx.unread("K2.prints-result", "the printed value", "the printed text is produced by the function %s: read on the view with that function inlined" % src[1]["key"], where=m.where(pbi), fn=m.key)
+            ctx.unread("K2.parsed-by-from_str", "apply's arguments", "the evaluation was not located (K2.prints-result)", where=m.where(pbi), fn=m.key)
+            k3_unread("the data text was not located (K2.prints-result)", pbi)
+            return
+        ctx.check(bool(via or is_apply) and is_apply, "K2.prints-result", "the printed value is the library's serialisation of apply's Ok payload",
+                  "the printed text derives from %s — not (only) from the JSON serialisation of apply's result" % show_expr(x), where=m.where(pbi), fn=m.key, nontrivial=True,
+                  sample={"chain": via + ["payload of apply(..)?"]})
+        if not is_apply:
+            return
+        apply_bi = src[3]
+        # apply's arguments
+        def parsed_from(e):
+            s = peel(e)
+            if s[0] == "call" and s[1] and s[1]["path"] == FROM_STR and "serde_json::Value" in (s[1].get("full") or ""):
+                return s
+            return None
+
+        r0, d0 = parsed_from(src[2][0]), parsed_from(src[2][1])
+        helper_args = [peel(a_) for a_, got in ((src[2][0], r0), (src[2][1], d0)) if got is None and by_helper(peel(a_))]
+        if helper_args and len(helper_args) == [r0, d0].count(None):
+            ctx.unread("K2.parsed-by-from_str", "apply's arguments", "an argument of apply is produced by the function %s: read on the view with that function inlined" % helper_args[0][1]["key"], where=m.where(apply_bi), fn=m.key)
+            k3_unread("the data text was not located (K2.parsed-by-from_str)", apply_bi)
+            return
+        ctx.check(r0 is not None and d0 is not None, "K2.parsed-by-from_str", "rule and data are parsed with serde_json::from_str::<Value> (whole text, trailing characters rejected)",
+                  "apply's arguments are %s and %s" % (show_expr(peel(src[2][0])), show_expr(peel(src[2][1]))), where=m.where(apply_bi), fn=m.key, nontrivial=True)
+        if r0 is None or d0 is None:
+            return
+        rule_text = peel(r0[2][0])
+        is_logic = rule_text[0] == "call" and rule_text[1] and rule_text[1]["path"].endswith("::value_of")
+        argname = None
+        if is_logic:
+            n = strip_refs(rule_text[2][1])
+            argname = const_value(n[1]) if n[0] == "const" else None
+        ctx.check(is_logic and argname is not None, "K2.rule-source", "the rule text is a command-line argument (%r)" % argname, "rule text derives from %s" % show_expr(rule_text), where=m.where(apply_bi), fn=m.key)
+
+        # ---------------- K3 data source
+        # Stated on sources and cut sets of the control-flow graph, not on the shape of the selection:
+        #   * every definition the data text can come from is either the data argument itself (made into a String) or a
+        #     buffer filled by reading stdin to the end;
+        #   * every path to the stdin read takes an edge that says "the data argument is absent" or "… equals \"-\"";
+        #   * every path to the use of the argument takes the edge that says "… does not equal \"-\"";
+        #   * a default substituted for an absent argument is the constant "-" (so that absence ends on the stdin side).
+        dt = strip_refs(d0[2][0])
+        while dt[0] == "call" and dt[1] and dt[1]["path"] in ("<std::string::String as std::ops::Deref>::deref", "std::string::String::as_str"):
+            dt = strip_refs(dt[2][0])
+
+        def arg_source(e, depth=0):
+            """(argument name, default constant or None) when e is the command-line argument's text."""
+            e = strip_refs(e)
+            if depth > 8:
+                return None
+            if e[0] == "field" and e[1][0] == "downcast" and e[1][2] == "Some":
+                return arg_source(e[1][1], depth + 1)
+            if e[0] == "payload" and len(e) > 2:       # case normal form: the Some payload of a source that is no combinator
+                return arg_source(e[2], depth + 1)
+            if e[0] == "agg" and e[1].get("variant") == "Some" and e[2]:
+                return arg_source(e[2][0], depth + 1)
+            if e[0] == "call" and e[1]:
+                pth = e[1]["path"]
+                if pth.endswith("::value_of"):
+                    n = strip_refs(e[2][1])
+                    return (const_value(n[1]), None) if n[0] == "const" else None
+                if pth == "std::option::Option::<T>::unwrap_or":
+                    inner = arg_source(e[2][0], depth + 1)
+                    dv = strip_refs(e[2][1])
+                    if inner and dv[0] == "const":
+                        return (inner[0], const_value(dv[1]))
+                    return (inner[0], "<computed>") if inner else None
+                if pth in ("std::option::Option::<T>::unwrap_or_default", "std::option::Option::<T>::unwrap_or_else"):
+                    inner = arg_source(e[2][0], depth + 1)
+                    return (inner[0], "<computed>") if inner else None
+                if pth in ("std::option::Option::<T>::unwrap", "std::option::Option::<T>::expect", "std::option::Option::<&T>::copied", "std::option::Option::<&T>::cloned"):
+                    return arg_source(e[2][0], depth + 1)
+            return None
+
+        OWNED = re.compile(r"::to_string$|::to_owned$|From<&str>|::into$|String::from$")
+
         lvs = leaves(dt)
         # binary-wide: one read-to-end site, no other reader — wherever it sits; the clauses below are about main's paths,
         # so a read that sits in a helper is read on the view with that helper inlined (not a violation: not read here)
@@ -370,6 +402,28 @@ def run(ctx):
                 continue
             else:
                 other.append(lf)
+        def from_helper(e):
+            """e is — through references, payload projections and conversions to an owned String — what a function of the
+            binary returns that this view does not show inlined."""
+            for _ in range(12):
+                e = strip_refs(e)
+                if e[0] == "field":
+                    e = e[1]
+                elif e[0] == "downcast":
+                    e = e[1]
+                elif e[0] == "payload" and len(e) > 2:
+                    e = e[2]
+                elif e[0] == "call" and e[1] and e[2] and (OWNED.search(e[1]["path"]) or e[1]["path"] in PAYLOAD_CALLS):
+                    e = e[2][0]
+                else:
+                    break
+            return by_helper(e)
+        hidden = [lf for lf in other if from_helper(lf)]
+        if hidden:
+            # a value that comes out of a function of the binary which this view does not show inlined is not read (it
+            # is read — either way — on the view with that function inlined), whatever else the text can be
+            ctx.unread("K3.data-source", "the data text", "the data text can be %s, which is computed by a function of the binary not inlined in this view" % show_expr(hidden[0])[:160], where=m.where(apply_bi), fn=m.key)
+            return
         ctx.check(not other and arg_leaves and stdin_leaves, "K3.data-source", "the data text is the data argument itself or what was read from stdin — nothing else",
                   "the data text can be %s (argument forms: %d, stdin forms: %d)" % ([show_expr(x)[:100] for x in other], len(arg_leaves), len(stdin_leaves)), where=m.where(apply_bi), fn=m.key, nontrivial=True,
                   sample={"argument_forms": len(arg_leaves), "stdin_forms": len(stdin_leaves)})
@@ -411,9 +465,65 @@ def run(ctx):
         from .core import option_guards
         for (sw_, t_some, t_none) in option_guards(m, lambda x: x[0] == "call" and x[1] is not None and x[1]["path"].endswith("::value_of") and (arg_source(x) or (None,))[0] in dnames):
             stdin_edges.add((sw_, t_none))
-        ctx.check(bool(stdin_edges), "K3.selector", "main decides on the data argument being absent or \"-\"", "no test of the data argument against the constant \"-\" (or for absence) found", where=m.where(), fn=m.key, nontrivial=True)
-        if not stdin_edges:
+        # The same two statements on path summaries (rules/pathsum.py), for selections that the edges of main do not
+        # show: a decision stored in a value and asked again later (`enum Source { Stdin, Inline(&str) }` built by one
+        # match and consumed by another, a named boolean): on every way through main on which stdin is read the
+        # argument was found absent or equal to "-"; on every way on which the argument becomes the text it was found
+        # different from "-".  Ways that contradict a value built on the way are not ways (pathsum decides them).
+        _ps = []
+
+        def path_facts():
+            """[(path, {"absent", "present", "dash", "not-dash"})] or None when main's ways could not be enumerated."""
+            if _ps:
+                return _ps[0]
+            w = pathsum.summarize(m, max_paths=4000)
+            if w.overflow or not w.paths:
+                _ps.append(None)
+                return None
+            out = []
+            for p_ in w.paths:
+                fs = set()
+                for k, v in p_.atoms.items():
+                    src = w.exprs.get(k)
+                    if src is None:
+                        continue
+                    x = strip_refs(src)
+                    if k[0] == "variant" and x[0] == "call" and x[1] and x[1]["path"].endswith("::value_of"):
+                        a_ = arg_source(x)
+                        if a_ and a_[0] in dnames and v in ("None", "Some"):
+                            fs.add("absent" if v == "None" else "present")
+                    elif k[0] in ("pure", "site") and x[0] == "call" and x[1] and isinstance(v, bool):
+                        if re.search(r"PartialEq.*::(eq|ne)$", x[1]["path"]) and len(x[2]) == 2:
+                            l, r_ = strip_refs(x[2][0]), strip_refs(x[2][1])
+                            for pp, q in ((l, r_), (r_, l)):
+                                a_ = arg_source(pp)
+                                if q[0] == "const" and const_value(q[1]) == "-" and a_ and a_[0] in dnames:
+                                    fs.add("dash" if x[1]["path"].endswith("::eq") == v else "not-dash")
+                        elif re.search(r"Option::<.*>::is_(none|some)$", x[1]["path"]) and x[2]:
+                            y = strip_refs(x[2][0])
+                            a_ = arg_source(y)
+                            if a_ and a_[0] in dnames and a_[1] is None and y[0] == "call" and y[1]["path"].endswith("::value_of"):
+                                fs.add("absent" if x[1]["path"].endswith("is_none") == v else "present")
+                out.append((p_, fs))
+            _ps.append(out)
+            return out
+
+        def on_paths(block, wanted):
+            """True: every way through main that executes the call at `block` established one of `wanted`;
+            False: a way was read that did not; None: not read."""
+            pf = path_facts()
+            if pf is None:
+                return None
+            hit = [(p_, fs) for p_, fs in pf if any(ev[0] == "call" and ev[3] == block for ev in p_.events)]
+            if not hit or any(p_.truncated for p_, _ in hit):
+                return None
+            return all(fs & wanted for _, fs in hit)
+        pf0 = None if stdin_edges else path_facts()
+        has_selector = bool(stdin_edges) or bool(pf0 and any(fs & {"absent", "dash"} for _, fs in pf0))
+        if not has_selector and pf0 is None and not stdin_edges:
+            ctx.unread("K3.selector", "the data text", "the ways through main could not be enumerated and no edge of main tests the data argument", where=m.where(), fn=m.key)
             return
+        ctx.check(has_selector, "K3.selector", "main decides on the data argument being absent or \"-\"", "no test of the data argument against the constant \"-\" (or for absence) found", where=m.where(), fn=m.key, nontrivial=True)
 
         def reachable_without(edges, target):
             seen, st = set(), [0]
@@ -427,11 +537,22 @@ def run(ctx):
                         continue
                     st.append(y)
             return target in seen
-        ctx.check(not reachable_without(stdin_edges, rbi), "K3.stdin-only-on-dash", "stdin is read only when the data argument is \"-\" or absent",
-                  "stdin can be read on a path that never established that the data argument is absent or \"-\"", where=m.where(rbi), fn=m.key, nontrivial=True)
+
+        def decide(clause, cut_ok, block, wanted, good, bad_):
+            v = True if cut_ok else on_paths(block, wanted)
+            if v is None:
+                ctx.unread(clause, "the data text", "the ways through main to %s could not be enumerated, and the edges of main alone do not separate them" % m.where(block), where=m.where(block), fn=m.key)
+            else:
+                ctx.check(v, clause, good, bad_, where=m.where(block), fn=m.key, nontrivial=True)
+        if not has_selector:
+            if pf0:      # the ways through main were read: say what they show about the read
+                decide("K3.stdin-only-on-dash", False, rbi, {"absent", "dash"}, "stdin is read only when the data argument is \"-\" or absent", "stdin is read on a way through main that never established that the data argument is absent or \"-\"")
+            return
+        decide("K3.stdin-only-on-dash", bool(stdin_edges) and not reachable_without(stdin_edges, rbi), rbi, {"absent", "dash"},
+               "stdin is read only when the data argument is \"-\" or absent", "stdin can be read on a path that never established that the data argument is absent or \"-\"")
         for lf, _src, pos in arg_leaves:
-            ctx.check(bool(arg_edges) and not reachable_without(arg_edges, pos), "K3.argument-verbatim", "the data argument is used as the data text only when it is not \"-\"",
-                      "the data argument can become the data text without having been compared with \"-\"", where=m.where(pos), fn=m.key, nontrivial=True)
+            decide("K3.argument-verbatim", bool(arg_edges) and not reachable_without(arg_edges, pos), pos, {"not-dash"},
+                   "the data argument is used as the data text only when it is not \"-\"", "the data argument can become the data text without having been compared with \"-\"")
         ctx.ok("K3.stdin-into-data", "the stdin text becomes the data text", nontrivial=True)
 
     k2_k3()
@@ -502,6 +623,75 @@ def failure_handlers(facts, bodies):
             if p == "std::process::exit":
                 exits.append((b, bi, PN.value_set(facts, b, b.trace(t["args"][0]))))
     return handled, droppers, exits
+
+
+def discr_sites(e, depth=0):
+    """Call sites whose result's discriminant the value e is: read through merges of paths (in a helper-inlined view
+    the switch of a `?` is reached from the `?` itself and — decided — from copies of it on the helper's exits)."""
+    out = set()
+    if depth > 6:
+        return out
+    if e[0] in ("phi", "partial"):
+        for x in e[2]:
+            out |= discr_sites(x, depth + 1)
+    elif e[0] == "discr":
+        st = [strip_refs(e[1])]
+        n = 0
+        while st and n < 32:
+            x = st.pop()
+            n += 1
+            if x[0] in ("phi", "partial"):
+                st.extend(strip_refs(y) for y in x[2])
+            elif x[0] == "call" and isinstance(x[3], int):
+                out.add(x[3])
+    return out
+
+
+def variant_edges(m, sb, variant):
+    """core.switch_edges_for_variant, read through a merge of paths all of whose values are discriminants of one type."""
+    r = switch_edges_for_variant(m, sb, variant)
+    if r is not None:
+        return r
+    t = m.blocks[sb]["term"]
+    flat, st = [], [m.trace(t["discr"])]
+    while st and len(flat) < 32:
+        x = st.pop()
+        if x[0] in ("phi", "partial"):
+            st.extend(x[2])
+        else:
+            flat.append(x)
+    adts = {x[2] for x in flat if x[0] == "discr"}
+    if not flat or any(x[0] != "discr" for x in flat) or len(adts) != 1:
+        return None
+    vs = m.facts.adts.get(adts.pop(), {}).get("variants", [])
+    dv = [str(v["discr"]) for v in vs if v["name"] == variant]
+    if not dv:
+        return None
+    for val, bb in t["arms"]:
+        if val == dv[0]:
+            return bb, sum(1 for _vv, b2 in t["arms"] if b2 == bb) == 1 and t["otherwise"] != bb
+    return t["otherwise"], {str(v["discr"]) for v in vs} - {val for val, _ in t["arms"]} == {dv[0]}
+
+
+def failure_result(m, start):
+    """(True, _) when on every way from block `start` to main's return the value returned is the propagated residual
+    (`?`); (False, value) when a way was read that returns something else; (None, reason) when the ways could not be read."""
+    w = pathsum.summarize(m, start=start, max_paths=2000)
+    if w.overflow:
+        return None, "too many ways out"
+    if not w.paths:
+        return False, None          # no way from the failure edge returns at all
+    for p_ in w.paths:
+        if p_.truncated:
+            return None, "a loop on the way out"
+        if p_.result is None:
+            continue        # ends in a call that never returns
+        r = strip_refs(p_.result)
+        if not (r[0] == "call" and r[1] and "from_residual" in r[1]["path"]):
+            if r[0] in ("agg", "const") or (r[0] == "call" and r[1]):
+                return False, r
+            return None, show_expr(r)[:120]
+    return True, None
 
 
 def short(p):
